@@ -201,6 +201,8 @@ func (fx *FuncCtx) selectModel(st *State, in *ssa.Select) {
 				s.assume(or(eq(ch, "0"), and(not(closed), eq(l, "0"))))
 			} else {
 				c := sx("select", fx.heapGet(s.heap, chCap), ch)
+				fx.decls.declare("CH$open", "(Array Int Bool)")
+				s.assume(implies(sx("select", "CH$open", ch), not(closed)))
 				s.assume(or(eq(ch, "0"), closed, sx(">=", l, c)))
 			}
 		}
